@@ -179,14 +179,15 @@ pub fn rw<S: Strat>(cfg: &RwCfg) {
         for (wi, ops) in cfg.writers.iter().enumerate() {
             let (c, filler) = (c.clone(), filler.clone());
             let ops = ops.clone();
-            let initial = initial.clone();
+            // Only a thread that does a compare_and_swap holds on to the initial value.
+            let initial = if ops.contains(&WriteOp::Cas) { Some(initial.clone()) } else { None };
             wh.push(rt::spawn(move || {
                 let held = prologue(&filler, false);
                 rt::quiet(|| rt::barrier(n));
                 let mut got = Vec::new();
                 for (k, op) in ops.iter().enumerate() {
                     let label = 10 * (wi as u64 + 1) + k as u64 + 1;
-                    if let Some(v) = write(&c, *op, label, Some(&initial)) {
+                    if let Some(v) = write(&c, *op, label, initial.as_ref()) {
                         got.push(v);
                     }
                 }
